@@ -4,4 +4,9 @@ go 1.21
 
 require github.com/robfig/soy v0.0.0
 
+require (
+	github.com/fsnotify/fsnotify v1.4.9 // indirect
+	golang.org/x/sys v0.0.0-20220722155257-8c9f86f7a55f // indirect
+)
+
 replace github.com/robfig/soy => /repo
